@@ -91,18 +91,7 @@ def run(chk):
     shared.client_flush(chk, "R2")
 
     # ------------------------------------------------------------------ R3 validate before use
-    for fq, scs, sub, mux in SITES:
-        f = repo.func(CL, fq, "C07.R3")
-        fx = ff_for(chk, f, "C07.R3")
-        if fq == "WritableStream.write":
-            _site_write(chk, folder, f, fx)
-            continue
-        _site(chk, folder, f, fx, scs, sub, mux)
-    cl = repo.func(CL, "BlockDownloadStream.close", "C07.R3")
-    fcl = ff_for(chk, cl, "C07.R3")
-    rs = [n for n in own_nodes(cl.node) if isinstance(n, ast.Raise)]
-    ok = any(any(fcl.is_form(e, "res_command & END_BLOCK_TRANSFER") and not p for e, p in fcl.facts_at(r)) for r in rs)
-    chk.check(ok, "R3", f"{CL}:BlockDownloadStream.close | end confirmation checked", cl.loc(), "the end-of-block-download response is not checked")
+    validate_sites(chk)
 
     # ------------------------------------------------------------------ R4 toggle compare dominates data return
     rdd = repo.func(CL, "ReadableStream.read", "C07.R4")
@@ -200,6 +189,26 @@ def _dominating_check(fx, node, forms_ne) -> bool:
             if not any(node.ast is x for s_ in owner.orelse for x in ast.walk(s_)):
                 return True
     return False
+
+
+def validate_sites(chk, classes=None):
+    """R3 for every response consumer (or only those of the named stream classes; used by C12/C13 for the block streams)."""
+    repo, folder = ctx(chk)
+    for fq, scs, sub, mux in SITES:
+        if classes is not None and fq.split(".")[0] not in classes:
+            continue
+        f = repo.func(CL, fq, "C07.R3")
+        fx = ff_for(chk, f, "C07.R3")
+        if fq == "WritableStream.write":
+            _site_write(chk, folder, f, fx)
+            continue
+        _site(chk, folder, f, fx, scs, sub, mux)
+    if classes is None or "BlockDownloadStream" in classes:
+        cl = repo.func(CL, "BlockDownloadStream.close", "C07.R3")
+        fcl = ff_for(chk, cl, "C07.R3")
+        rs = [n for n in own_nodes(cl.node) if isinstance(n, ast.Raise)]
+        ok = any(any(fcl.is_form(e, "res_command & END_BLOCK_TRANSFER") and not p for e, p in fcl.facts_at(r)) for r in rs)
+        chk.check(ok, "R3", f"{CL}:BlockDownloadStream.close | end confirmation checked", cl.loc(), "the end-of-block-download response is not checked")
 
 
 def _site(chk, folder, f, fx, scs, sub, mux):
